@@ -110,6 +110,20 @@ def audio_extent(F, S):
     else:
         out.append(bad("R-COPYEXT", inst, rh.loc(rh.body), rh.qn, "dataLength_i is what FindChunk('data') returned for input i, the last thing done with that reader", "shape not found"))
     fc = F.fn(CLM + "::FindChunk", nparams=2)
+    # the walk goes on exactly while the cursor is inside the file: a chunk header at any position < length is examined
+    loops = [nd for nd in fc.nodes if nd["k"] in ("DoStmt", "WhileStmt")]
+    inst = CLM + "::FindChunk#walk-condition"
+    req = "the chunk walk continues while currentPosition < file length (so a data chunk anywhere in the file, even empty and last, is found)"
+    good = False
+    detail = "loop not found"
+    if len(loops) == 1:
+        ct = c05.resolve(fc.term(loops[0]["cond"]), c05.alias_defs(fc))
+        detail = fmt_term(ct)
+        good = ct[0] == "op" and ct[1] == "<" and ct[2][0] == "var" and ct[2][1] == "currentPosition" and ct[3][0] == "call" and ct[3][1].endswith("::Length")
+    if good:
+        out.append(ok("R-GUARD", inst, fc.loc(loops[0]["id"]), fc.qn, req, detail))
+    else:
+        out.append(bad("R-GUARD", inst, fc.loc(fc.body), fc.qn, req, "condition is %s" % detail))
     r = [x for x in returns(fc)]
     inst = CLM + "::FindChunk#returns-length-at-data"
     good = len(r) == 1 and fc.term(r[0]["value"])[0] == "mem" and fc.term(r[0]["value"])[2] == "length"
